@@ -31,6 +31,10 @@ func cases(tier string) int {
 
 func run(r *mon.Report, tier string, idx int, rng *rand.Rand) {
 	r.Eval()
+	r.Assume("the cloud provider's own IsDrifted answers 'not drifted' and Create returns the NodeClaim's annotations unchanged: only Karpenter's static / requirements / instance-type drift logic speaks")
+	r.Assume("after every NodePool edit the hash controller reconciles before the nodeclaim disruption controller (the property does not quantify over schedules; the window in between is not explored)")
+	r.Assume("NodePool edits pass CRD schema + CEL + RuntimeValidate as on create; CEL transition rules (oldSelf) are not evaluated, the generated edits never touch nodeClassRef group/kind or the static/dynamic mode")
+	r.Assume("the fake API server does not validate metadata: NodeClaims whose labels a real API server would refuse are counted and skipped")
 	checkHashWalk(r, rng, idx)
 	runE2E(r, tier, idx, rng)
 }
@@ -41,10 +45,13 @@ func init() {
 		Rule: "each case = (a) one randomly populated NodePoolSpec walked by reflection (every leaf edited to two distinct values, every list/map permuted, every container nil-vs-empty) and (b,c) one generated world: catalog of 2-6 instance types, one NodePool accepted by the real CRD schema+CEL+RuntimeValidate pipeline (requirements over all eight operators incl. NotIn/Exists/Gt/Lt/Gte/Lte on custom integer/string labels, template labels/annotations/taints/startupTaints/expireAfter/terminationGracePeriod, budgets, limits, weight), 1-3 pending pods (some constraining the custom keys), real hash controller, real Schedule+Create, then for every launch choice the serialized NodeClaim permits a fresh claim is created and driven through the real lifecycle controller to launched/registered/initialized and handed to the real nodeclaim disruption controller; on launched claims the NodePool is edited (violating / benign requirement edit, hashed template field edit, reorder + non-drifting edit, hash-version scenario) and every edit is reverted. Non-trivial = at least one launched claim was judged; distinct by (pool requirement shape x stages x edit kinds exercised).",
 		Cases: cases, Run: run,
 		MinObserved: map[string]int{
-			"hash_template_leaf_edit_checks": 1000, "hash_requirements_leaf_edit_checks": 300, "hash_nontemplate_leaf_edit_checks": 300, "hash_permutation_checks": 300,
-			"fresh_claim_drift_checks": 300, "drift_subreconciler_ran": 300, "instance_type_not_found_evaluations": 20,
-			"requirement_violation_drift_checks": 60, "benign_requirement_edit_checks": 60, "template_edit_drift_checks": 60, "benign_pool_edit_checks": 60,
-			"hash_version_checks": 60, "revert_checks": 200,
+			"hash_template_leaf_edit_checks": 3000, "hash_requirements_leaf_edit_checks": 1000, "hash_nontemplate_leaf_edit_checks": 2000, "hash_permutation_checks": 1000,
+			"hash_zero_to_nonzero_checks": 3000,
+			"nodepools_rejected_by_validation": 5, "static_pool_cases": 10,
+			"fresh_claim_drift_checks": 400, "drift_subreconciler_ran": 400, "instance_type_not_found_evaluations": 100,
+			"requirement_violation_drift_checks": 300, "benign_requirement_edit_checks": 300, "template_edit_drift_checks": 300, "benign_pool_edit_checks": 300,
+			"version_differs_checks": 80, "version_migration_equal_checks": 80, "version_same_hash_differs_checks": 80, "version_migration_drifted_checks": 80,
+			"revert_checks": 1000,
 		},
 	})
 }
